@@ -311,3 +311,13 @@ def r7(ctx: Ctx) -> None:
             ctx.report(f.where, f"geometry-query-cached {d}", f"{q} is cached by a decorator: rectangles are moved in place, so the cached value goes stale", lineno=f.node.lineno)
         if not reads_state:
             ctx.report(f.where, "geometry-query-no-state", f"{q} does not read the rectangle's current centre/shape", lineno=f.node.lineno)
+
+
+@rule("C03", "R8.geometry-primitives", "SHARED(C18)",
+      "the overlap the ratios are computed from is the exact one: Rectangle.area_overlap / area / bounding_box satisfy the "
+      "C18 rules (x/y symmetry, low/high duality, operand symmetry, emptiness test, overlap area == product of the two "
+      "extents) -- evaluated here for the helpers the allocation calls", floor=6)
+def r8(ctx: Ctx) -> None:
+    from . import C18 as _c18
+    from .common import support
+    support(ctx, [_c18.r1, _c18.r2, _c18.r3, _c18.r4, _c18.r6], {"Rectangle.area_overlap", "Rectangle.area", "Rectangle.bounding_box"})
